@@ -331,6 +331,18 @@ func (a *Act) callFn(st *State, callee *ssa.Function, args []Val, env []Val, pos
 			a.traceEvent(st, fc, cname, targs, pos, Val{}, types.NewSignatureType(nil, nil, nil, nil, nil, false))
 			res := a.callFn1(st, callee, args, env, pos, sig)
 			a.traceResult(st, cname, at, res)
+			// assumed well-formedness of external input (clause `input Name: expr`)
+			for _, cl := range fc.InputAssume[cname] {
+				var rs []Val
+				if res.Tuple != nil {
+					rs = res.Tuple
+				} else {
+					rs = []Val{res}
+				}
+				ienv := a.fnEnv(callee, args, nil, st, st, rs)
+				st.assume(a.evalClause(ienv, cl))
+				a.u.Trusted["assumed about the external input (result of "+cname+"): "+cl.Src] = true
+			}
 			return res
 		}
 	}
